@@ -1,4 +1,5 @@
 \* Sierra classes across the 0.14.1 switch with transactions, <= 4 blocks
+\* measured: 658 413 distinct states, ~3 min on 4 workers
 CONSTANTS
   Users = {"c1"}
   Sys = {}
